@@ -81,4 +81,10 @@ PoolWF(p, allrows) ==
         /\ p[k].rc <= RcCap
   /\ \A r \in 1..Len(allrows) : \A j \in 1..Len(allrows[r]) :
         IsRef(allrows[r][j]) => allrows[r][j].r \in 1..Len(p)   \* no dangling reference
+\* files written by other tools may over-count references and keep unused entries;
+\* what must still hold: no dangling reference, no live entry with fewer counts than users
+PoolLoose(p, allrows) ==
+  /\ \A k \in 1..Len(p) : p[k].rc >= RefCount(allrows, k) /\ (RefCount(allrows, k) > 0 => p[k].s # <<>>)
+  /\ \A r \in 1..Len(allrows) : \A j \in 1..Len(allrows[r]) :
+        IsRef(allrows[r][j]) => allrows[r][j].r \in 1..Len(p)
 =============================================================================
